@@ -366,4 +366,92 @@ theorem core_entry_cyg (cfg : Cfg) (hf : cfg.fast = false) (s : St) (f t0 : Nat)
             rw [← key]; simp [eraseSv]
           simp [core, hb, h3, kI, kO, kS, kv, kM, kT, kH, eraseSv]
 
+theorem matchFilt_nofilter (tr : Trigger) (f : Filt) (h : tr.filter = none) : matchFilt tr f = f := by
+  simp [matchFilt, h]
+
+theorem trigFilt_nochange (tr : Trigger) (f : Filt) (h1 : tr.depth = none) (h2 : tr.time = none)
+    (h3 : tr.size = none) : trigFilt tr f = f := by
+  simp [trigFilt, h1, h2, h3]
+
+/-- a call that the filter check rejects without its trigger having touched the
+    filter state leaves the filter state as it was -/
+theorem core_check_nochange (cfg : Cfg) (hf : cfg.fast = false) (s : St) (f : Nat)
+    (h : (entryFilterCheck cfg s f).1 = .rstack ∨
+         ((entryFilterCheck cfg s f).1 = .out ∧ (entryFilterCheck cfg s f).2.2.changesState = false)) :
+    core (entryFilterCheck cfg s f).2.1 = core s := by
+  have h2 := checkRstack_core cfg s
+  unfold entryFilterCheck at h ⊢
+  generalize checkRstack cfg s = cr at h h2 ⊢
+  obtain ⟨b, s'⟩ := cr
+  simp only at h h2 ⊢
+  cases b
+  · simp only [Bool.false_eq_true, ↓reduceIte, hf] at h ⊢
+    rw [← h2]
+    generalize cfg.trig f = tr at h ⊢
+    have hsv : (saveFilt s'.filt).outCount = s'.filt.outCount := by simp
+    rw [hsv] at h ⊢
+    by_cases hout : s'.filt.outCount > 0
+    · simp only [hout, ↓reduceIte]; simp [core]
+    · simp only [hout, ↓reduceIte] at h ⊢
+      by_cases he : earlyOut cfg tr (saveFilt s'.filt) = true
+      · simp only [he, ↓reduceIte] at h ⊢
+        rcases h with h | ⟨_, hch⟩
+        · simp at h
+        · simp only [Trigger.changesState, Bool.or_eq_false_iff, Option.isSome_eq_false_iff,
+            Option.isNone_iff_eq_none] at hch
+          simp [core, matchFilt_nofilter _ _ hch.1.1.1]
+      · simp only [he, Bool.false_eq_true, ↓reduceIte] at h ⊢
+        by_cases hd : (trigFilt tr (matchFilt tr (saveFilt s'.filt))).depth ≥ depthLimit cfg tr (saveFilt s'.filt)
+        · simp only [hd, ↓reduceIte] at h ⊢
+          rcases h with h | ⟨_, hch⟩
+          · simp at h
+          · simp only [Trigger.changesState, Bool.or_eq_false_iff, Option.isSome_eq_false_iff,
+              Option.isNone_iff_eq_none] at hch
+            simp [core, matchFilt_nofilter _ _ hch.1.1.1, trigFilt_nochange _ _ hch.1.1.2 hch.1.2 hch.2]
+        · simp only [hd, ↓reduceIte] at h
+          rcases h with h | ⟨h, _⟩ <;> simp at h
+  · simp only [↓reduceIte]; exact h2
+
+/-- when the -pg entry hook takes a call it changes the filter state exactly as the cygprof hook does -/
+theorem core_entry_pg_push (cfg : Cfg) (hf : cfg.fast = false) (s : St) (f t0 : Nat)
+    (hfin : (cfg.trig f).finish = false) (hpush : (entry cfg .pg s f t0).2 = true) :
+    core (entry cfg .pg s f t0).1 = core (entry cfg .cyg s f t0).1 := by
+  unfold entry at hpush ⊢
+  generalize entryFilterCheck cfg s f = c at hpush ⊢
+  obtain ⟨fr, s1, tr⟩ := c
+  have htr : tr.finish = false ∨ True := Or.inr trivial
+  simp only at hpush ⊢
+  by_cases hr : fr = .rstack
+  · subst hr; simp at hpush
+  · have hr' : (fr == FR.rstack) = false := by cases fr <;> simp_all
+    rw [hr'] at hpush ⊢
+    simp only [Bool.false_or] at hpush ⊢
+    by_cases hc : (fr != FR.in_ && !(cfg.f4fixed && tr.changesState)) = true
+    · rw [if_pos hc] at hpush; simp at hpush
+    · rw [if_neg hc]; rw [if_neg (by simp)]
+      by_cases hfi : tr.finish = true
+      · -- a finish trigger: both hooks record and finish; the filter state is the same
+        simp only [entryFilterRecord, hf, hfi, Bool.false_eq_true, ↓reduceIte]
+        simp only [core, recordTrace_core]
+        cases fr <;> simp_all [coreF, recordTrace_core] <;> rfl
+      · have hfi' : tr.finish = false := by simpa using hfi
+        rw [core_entryFilterRecord cfg hf _ _ s1.frames tr hfi' rfl,
+          core_entryFilterRecord cfg hf _ _ s1.frames tr hfi' rfl]
+        cases fr <;> simp_all <;> rfl
+
+/-- when the (repaired) -pg entry hook does not take a call, the filter state is untouched -/
+theorem core_entry_pg_nopush (cfg : Cfg) (hf : cfg.fast = false) (hfix : cfg.f4fixed = true) (s : St)
+    (f t0 : Nat) (hno : (entry cfg .pg s f t0).2 = false) :
+    core (entry cfg .pg s f t0).1 = core s := by
+  have key := core_check_nochange cfg hf s f
+  unfold entry at hno ⊢
+  generalize entryFilterCheck cfg s f = c at hno key ⊢
+  obtain ⟨fr, s1, tr⟩ := c
+  simp only at hno key ⊢
+  by_cases hc : (fr == FR.rstack || fr != FR.in_ && !(cfg.f4fixed && tr.changesState)) = true
+  · rw [if_pos hc]
+    apply key
+    cases fr <;> simp_all
+  · rw [if_neg hc] at hno; simp at hno
+
 end Uft.Mcount
